@@ -90,7 +90,7 @@ func c21Gen(rt *rapid.T) c21Case {
 	c.Rows = rapid.SampledFrom([]int{5, 50, 400, 1500}).Draw(rt, "rows")
 	c.Pad = rapid.SampledFrom([]int{0, 40, 300}).Draw(rt, "pad")
 	c.SnapEvery = rapid.SampledFrom([]int{0, 20, 60}).Draw(rt, "snapEvery")
-	n := vstat.Scale(400, 1500)
+	n := vstat.Scale(300, 1500)
 	for i := 0; i < n; i++ {
 		c.Transfers = append(c.Transfers, c21Transfer{
 			A: rapid.IntRange(1, c.Rows).Draw(rt, "a"),
@@ -104,8 +104,10 @@ func c21Gen(rt *rapid.T) c21Case {
 		b.Compress = rapid.Bool().Draw(rt, "compress")
 		b.Leader = rapid.Bool().Draw(rt, "leader")
 		b.ToFile = rapid.Bool().Draw(rt, "toFile")
-		if b.Format != "sql" {
+		if b.Format == "binary" {
 			b.Vacuum = rapid.Bool().Draw(rt, "vacuum")
+		} else if b.Format == "delete" {
+			b.Vacuum = rapid.IntRange(0, 4).Draw(rt, "vacuumDelete") == 0 // documented as invalid: must be an error
 		} else {
 			b.Tables = rapid.IntRange(0, 4).Draw(rt, "tables") == 0
 		}
